@@ -62,6 +62,7 @@ KEX2 = Kind('kopf.dev', 'v1', 'kopfwidgets', 'KopfWidget', 'kopfwidget', True)
 CLUSTER_PEERING = Kind('kopf.dev', 'v1', 'clusterkopfpeerings', 'ClusterKopfPeering',
                        'clusterkopfpeering', False)
 NS_PEERING = Kind('kopf.dev', 'v1', 'kopfpeerings', 'KopfPeering', 'kopfpeering', True)
+KEX_CLUSTER = Kind('kopf.dev', 'v1', 'kopfclusterthings', 'KopfClusterThing', 'kopfclusterthing', False)
 REPLICASETS = Kind('apps', 'v1', 'replicasets', 'ReplicaSet', 'replicaset', True, short=('rs',))
 
 
